@@ -99,6 +99,23 @@ def der_mutations(blob: bytes, ci_end: int) -> t.List[t.Tuple[str, bytes]]:
             elif kind == "tag+1":
                 nd[0] = bytes([(nd[0][0] & 0xE0) | ((nd[0][0] + 1) & 0x1F)]) + nd[0][1:]
             out.append((f"der/{kind}@{label}", _ser(tr) + tail))
+    # content of a primitive node shortened / lengthened with all enclosing lengths kept consistent (a well-formed DER tree whose
+    # leaf holds a structure cut at every offset: key identifier, wrapped key, nonce, OIDs, strings, ciphertext)
+    for path in _paths(base):
+        node = _get(base, path)
+        if node[1] is not None:
+            continue
+        ln = len(node[2])
+        label = "/".join(map(str, path)) + ":" + node[0].hex()
+        lens = range(ln) if ln <= 160 else sorted(set(list(range(0, 64)) + list(range(64, ln, max(1, ln // 24)))))
+        for k in lens:
+            tr = copy.deepcopy(base)
+            _get(tr, path)[2] = node[2][:k]
+            out.append((f"der/shorten{k}@{label}", _ser(tr) + tail))
+        for extra in (1, 2, 64):
+            tr = copy.deepcopy(base)
+            _get(tr, path)[2] = node[2] + b"\x00" * extra
+            out.append((f"der/extend{extra}@{label}", _ser(tr) + tail))
     # raw length-octet corruption (parents not fixed)
     pos_list = []
 
@@ -144,7 +161,8 @@ class C05(common.Check):
     rule = ("case = (base blob, key material offline|none, mutation). Mutations: every truncation and every single-bit flip of the enumerated "
             "base blobs; every key-identifier field set to boundary values (L0 >= 2^31, L1/L2 in {31,32,33,2^31,2^32-1}, lengths "
             "0/1/2/true+-1/2^32-1); structure-aware DER mutants of every TLV node (emptied, dropped, duplicated, class/constructed bit "
-            "flipped, high-tag form, raw length octets: indefinite, 0, +-1, 2^32, 2^63, 2^64, non-minimal); whole-record garbage and PRNG byte "
+            "flipped, high-tag form, leaf content shortened to every length / extended with consistent enclosing lengths, raw length octets: "
+            "indefinite, 0, +-1, 2^32, 2^63, 2^64, non-minimal); whole-record garbage and PRNG byte "
             "strings. Oracle: returns | needs-network | ValueError/NotImplementedError/NotEnougData/InvalidTag/InvalidUnwrap; <= 300 KDF "
             "calls; <= 150000 + 400*len traced lines. Non-trivial = stored bytes differ from a valid blob; distinct = distinct (blob, mutation).")
     components = {"client": "real (ncrypt_unprotect_secret and everything below it)", "blob store": "simulated fault injection",
